@@ -879,9 +879,9 @@ def from_dict(
             # its 'init'.
             req_init_field_names = set(chain(extra_args, init_args))
 
-            # Sort the derived classes by their number of init fields, so that
-            # we choose the first one with all the required fields.
-            derived_classes.sort(key=lambda dc: len(get_init_fields(dc)))
+            # Sort the derived classes by their number of fields, so that
+            # we choose the first (smallest) one with all the required fields.
+            derived_classes.sort(key=lambda dc: len(fields(dc)))
 
             for child_class in derived_classes:
                 logger.debug(f"child class: {child_class.__name__}, mro: {child_class.mro()}")
